@@ -10,7 +10,7 @@ SPEC = {
     "anchors": ["PyMatterSim.utils.pbc:remove_pbc"],
     "must_reach": ["PyMatterSim.utils.pbc:remove_pbc"],
     "floors": {"lattice": 1000, "halfcell": 1000, "nonperiodic": 300, "shift_invariance": 300,
-               "idempotence": 1000, "shortest_orthogonal": 300},
+               "idempotence": 1000, "shortest_orthogonal": 300, "history": 500},
     "rule": ("random displacement arrays x cells {orthogonal, lower-triangular inside/outside LAMMPS tilt limits, "
              "general cond<=1e3} x d in {2,3} x all 2^d masks x magnitudes up to +-50 cells x adversarial values; "
              "a case is non-trivial when at least one periodic fractional coordinate had to be reduced (|f|>1/2); "
@@ -59,8 +59,35 @@ def gen_R(rng, H, d):
     return str(mode), f @ H
 
 
+def history_case(ctx, rng, remove_pbc):
+    """the same cell-matrix *object* is deformed in place between calls (shear / compression loops):
+    every call must honour the cell as it is now."""
+    from ..interpose import pbc_post
+    d = int(rng.choice([2, 3]))
+    _kind, H = gen_cell(rng, d)
+    ppp = np.array([1] * d) if rng.random() < 0.6 else rng.integers(0, 2, size=d)
+    for step in range(4):
+        _mode, R = gen_R(rng, H, d)
+        ok, out = ctx.call("remove_pbc/history", remove_pbc, R.copy(), H, ppp, data={"H": H, "step": step})
+        if ok:
+            bad = pbc_post((R, H, ppp), {}, out)
+            ctx.check("history", bad is None, "remove_pbc/history", lambda: f"after deforming the same cell array in place (step {step}): {bad[1]}",
+                      lambda: {"H_now": H, "ppp": ppp, "step": step})
+        # in-place deformation of the very same ndarray
+        if rng.random() < 0.5:
+            H *= float(rng.uniform(0.6, 1.7))
+        elif d == 3:
+            H[2, 0] += float(rng.uniform(-0.4, 0.4)) * H[0, 0]
+            H[1, 1] *= float(rng.uniform(0.7, 1.4))
+        else:
+            H[1, 0] += float(rng.uniform(-0.4, 0.4)) * H[0, 0]
+            H[0, 0] *= float(rng.uniform(0.7, 1.4))
+
+
 def run(ctx):
     from PyMatterSim.utils.pbc import remove_pbc  # binding replaced by the in-situ contract as well
+    for _ in range(ctx.n(200, 2000)):
+        history_case(ctx, ctx.rng(), remove_pbc)
     eps = np.finfo(float).eps
     ncase = ctx.n(3000, 30000)
     for _ in range(ncase):
